@@ -463,7 +463,8 @@ Fixpoint v6obj_trace (s : v6obj) (ops : list v6op) : list (bytes * list opt * re
   end.
 
 (* ---- the session around IPCP: internal/pppoe/session.go (PPPoE) and internal/l2tp/lns_lifecycle.go (LNS) ---- *)
-Inductive owner := PPPoE | LNS.
+Inductive owner := PPPoE | LNS
+  | Ended.   (* a PPPoE session whose authenticated link has ended (e9950ea): it is torn down, nothing more happens *)
 
 (* extractIPFromAttributes (IPv4 attribute only): the parsed AAA address, if any *)
 Definition extract_ip (fl : flags) (aaa : option bytes) : option bytes :=
@@ -517,7 +518,7 @@ Definition start_ncp (fl : flags) (ow : owner) (c : ipcp_cfg) (st : N) (p : ipcp
                | None => or_alloc orc
                | Some a => match ow with
                            | PPPoE => if or_reserve_ok orc then Some a else None
-                           | LNS => Some a
+                           | _ => Some a
                            end
                end in
   if usable addr1 || f_always fl then
@@ -527,7 +528,7 @@ Definition start_ncp (fl : flags) (ow : owner) (c : ipcp_cfg) (st : N) (p : ipcp
                     end in
     let c2 := match ow with
               | PPPoE => mkicfg (ic_assigned c1) (to4 (fst dns)) (to4 (snd dns)) (ic_local c1) (ic_rejected c1)
-              | LNS => c1
+              | _ => c1
               end in
     let (a, st') := up_open st in
     (mksess ow c2 st' p1 addr1 op (next_req c2 a last) dns, a)
@@ -623,14 +624,20 @@ Definition sess_fsm_only (fl : flags) (s : sess) (c' : ipcp_cfg) (r : list act *
   let (ad, op) := fold_left (on_act fl (s_peer s)) a (s_addr s, s_open s) in
   (mksess (s_owner s) c' st' (s_peer s) ad op (next_req c' a (s_lastreq s)) (s_dns s), a).
 
-(* onLCPDown as the NCP sees it *)
+(* onLCPDown.  PPPoE: FSM.Down() to the NCPs (8b06a36) and, the link having been authenticated (startNCP has
+   run: Phase Network/Open), linkEnded: handleSession tears the session down right after (e9950ea).
+   LNS: only the phase changes. *)
 Definition sess_down (fl : flags) (s : sess) : sess * list act :=
   match s_owner s with
-  | PPPoE => sess_fsm_only fl s (s_cfg s) (down_event (s_fsm s))
-  | LNS => (s, [])
+  | PPPoE =>
+      let (s', a) := sess_fsm_only fl s (s_cfg s) (down_event (s_fsm s)) in
+      (mksess Ended (s_cfg s') (s_fsm s') (s_peer s') (s_addr s') (s_open s') (s_lastreq s') (s_dns s'), a)
+  | _ => (s, [])
   end.
 
-Definition sess_step (fl : flags) (s : sess) (e : sev) : sess * list act :=
+Definition is_ended (s : sess) : bool := match s_owner s with Ended => true | _ => false end.
+
+Definition sess_step_live (fl : flags) (s : sess) (e : sev) : sess * list act :=
   match e with
   | EvReq id wire =>
       let '(a, st', p') := ipcp_input (s_cfg s) (s_fsm s) (s_peer s) id wire in
@@ -646,12 +653,18 @@ Definition sess_step (fl : flags) (s : sess) (e : sev) : sess * list act :=
       sess_fsm_only fl s (s_cfg s) (if N.eqb (s_fsm s) 5 then ([], 3%N) else ([], s_fsm s))
   | EvDown => sess_down fl s
   | EvReauth aaa orc =>
-      (* onLCPDown first; the session address is kept unless AAA delivers a new one; then startNCP again *)
-      let (s1, a1) := sess_down fl s in
-      let addr := match extract_ip fl aaa with Some x => Some x | None => s_addr s1 end in
-      let (s2, a2) := start_ncp fl (s_owner s1) (s_cfg s1) (s_fsm s1) (s_peer s1) addr (s_open s1) (s_lastreq s1) (s_dns s1) orc in
-      (s2, a1 ++ a2)
+      match s_owner s with
+      | LNS =>
+          (* the LNS owner keeps the session: the address is kept unless AAA delivers a new one, startNCP again *)
+          let addr := match extract_ip fl aaa with Some x => Some x | None => s_addr s end in
+          start_ncp fl LNS (s_cfg s) (s_fsm s) (s_peer s) addr (s_open s) (s_lastreq s) (s_dns s) orc
+      | _ => sess_down fl s        (* PPPoE: the renegotiation ends the session before any new AAA answer *)
+      end
   end.
+
+(* a session that has been torn down receives nothing any more *)
+Definition sess_step (fl : flags) (s : sess) (e : sev) : sess * list act :=
+  if is_ended s then (s, []) else sess_step_live fl s e.
 
 Fixpoint sess_run (fl : flags) (s : sess) (es : list sev) : sess :=
   match es with
